@@ -221,7 +221,7 @@ void run_json(bool th)
 }
 } // namespace
 
-extern "C" HarnessInfo harness_info() { return {"c11_kvcrash", "C11", 60}; }
+extern "C" HarnessInfo harness_info() { return {"c11_kvcrash", "C11", 150}; }
 
 extern "C" void harness_run()
 {
